@@ -246,10 +246,11 @@ struct Peer {
     id: VerifyingKey,
     /// Messages this peer authored or has been handed (whatever the result).
     have: BTreeSet<Hash>,
-    /// First processing (or authorship) succeeded?
-    first_ok: BTreeMap<Hash, bool>,
+    /// First processing (or authorship) succeeded? Keyed by message index (never order anything
+    /// by hash value: hashes are only ever compared for equality).
+    first_ok: BTreeMap<usize, bool>,
     inbox: Vec<usize>,
-    redelivered: BTreeSet<Hash>,
+    redelivered: BTreeSet<usize>,
     snap: Option<Snap>,
     /// A panic unwound through this peer's manager; it is no longer used.
     dead: bool,
@@ -321,6 +322,41 @@ impl World {
             None => "s?".into(),
         }
     }
+    /// Replace 64-digit hex ids in an error text by the trace's names for them.
+    fn scrub(&self, text: String) -> String {
+        let b = text.as_bytes();
+        let mut out = String::new();
+        let mut i = 0;
+        while i < b.len() {
+            let mut j = i;
+            while j < b.len() && b[j].is_ascii_hexdigit() {
+                j += 1;
+            }
+            if j - i == 64 {
+                let hx = &text[i..j];
+                let name = self
+                    .msgs
+                    .iter()
+                    .position(|m| m.op.hash.to_hex() == hx)
+                    .map(|k| format!("m{k}"))
+                    .or_else(|| self.spaces.iter().position(|x| x.to_hex() == hx).map(|k| format!("s{k}")))
+                    .or_else(|| self.peers.iter().position(|x| x.id.to_hex() == hx).map(|k| format!("P{k}")))
+                    .or_else(|| self.groups.iter().position(|x| x.to_hex() == hx).map(|k| format!("g{k}")))
+                    .unwrap_or_else(|| "<id>".to_string());
+                out.push_str(&name);
+                i = j;
+            } else if j > i {
+                out.push_str(&text[i..j]);
+                i = j;
+            } else {
+                let ch = text[i..].chars().next().unwrap();
+                out.push(ch);
+                i += ch.len_utf8();
+            }
+        }
+        out
+    }
+
     fn msg_label(&self, i: usize) -> String {
         let m = &self.msgs[i];
         format!("m{i}({}{} by P{})", if m.byz { "forged " } else { "" }, m.kind, m.author)
@@ -363,7 +399,7 @@ impl World {
             if i == author && !byz {
                 // An honest message was applied locally when it was created.
                 p.have.insert(hash);
-                p.first_ok.insert(hash, true);
+                p.first_ok.insert(idx, true);
             } else {
                 // A forged message was never applied by its forger: it reaches the forger's own
                 // manager like everybody else's, through `process`.
@@ -411,7 +447,7 @@ impl World {
                     }
                     Outcome::Ok { events: events.iter().map(event_name).collect() }
                 }
-                Err(e) => Outcome::Err(shorten(e.to_string())),
+                Err(e) => Outcome::Err(e.to_string().replace('\n', " ")),
             }
         };
         match AssertUnwindSafe(fut).catch_unwind().await {
@@ -421,9 +457,7 @@ impl World {
                 if loc.is_empty() || loc.contains("/verif/") {
                     resume_unwind(payload);
                 }
-                let file = loc.rsplit_once(':').map(|(f, _)| f).unwrap_or(&loc);
-                let file = file.strip_prefix("/repo/").unwrap_or(file).to_string();
-                Outcome::Panic { file, msg }
+                Outcome::Panic { file: panic_site(&loc), msg }
             }
         }
     }
@@ -559,14 +593,14 @@ impl World {
         match out {
             Outcome::Ok { events } => {
                 ev!("deliver {} -> P{p}: Ok events=[{}]", self.msg_label(mi), events.join(","));
-                self.peers[p].first_ok.insert(op.hash, true);
+                self.peers[p].first_ok.insert(mi, true);
                 if byz {
                     ctx::probe("forged_message_accepted");
                 }
             }
             Outcome::Err(e) => {
-                ev!("deliver {} -> P{p}: Err({e})", self.msg_label(mi));
-                self.peers[p].first_ok.insert(op.hash, false);
+                ev!("deliver {} -> P{p}: Err({})", self.msg_label(mi), self.scrub(e));
+                self.peers[p].first_ok.insert(mi, false);
                 ctx::probe(if byz { "forged_message_rejected" } else { "honest_message_rejected" });
             }
             Outcome::Panic { file, msg } => self.report_panic(p, mi, kind, byz, false, file, msg),
@@ -596,9 +630,9 @@ impl World {
         let op = self.msgs[mi].op.clone();
         let kind = self.msgs[mi].kind;
         let byz = self.msgs[mi].byz;
-        let first_ok = self.peers[p].first_ok.get(&op.hash).copied();
+        let first_ok = self.peers[p].first_ok.get(&mi).copied();
         let own = self.msgs[mi].author == p;
-        self.peers[p].redelivered.insert(op.hash);
+        self.peers[p].redelivered.insert(mi);
         let Some(before) = self.snapshot(p).await else { return };
         ctx::fault("duplicate");
         self.peers[p].snap = None;
@@ -607,7 +641,7 @@ impl World {
         match out {
             Outcome::Panic { file, msg } => self.report_panic(p, mi, kind, byz, true, file, msg),
             Outcome::Err(e) => {
-                ev!("re-deliver {tag}{} -> P{p}: Err({e})", self.msg_label(mi));
+                ev!("re-deliver {tag}{} -> P{p}: Err({})", self.msg_label(mi), self.scrub(e));
                 ctx::probe("redelivery_err");
                 self.check_unchanged(p, mi, &before, first_ok, kind, &[]).await;
             }
@@ -633,7 +667,21 @@ impl World {
             let d = before.diff(&after);
             if counted {
                 let view = self.safe_view(p).await;
-                violation("redelivery-changes-state", kind, format!("P{p} ({who}) processed {} a second time and its stored state changed in: {}; queries afterwards: {view}", self.msg_label(mi), shorten(d.join("; "))));
+                // Attribution: message kind, whether the peer is the message's author, and which
+                // parts of the stored state moved (names only).
+                let fields: BTreeSet<String> = before
+                    .parts
+                    .keys()
+                    .chain(after.parts.keys())
+                    .filter(|k| before.parts.get(*k) != after.parts.get(*k))
+                    .map(|k| match k.strip_prefix("space ") {
+                        Some(rest) => rest.split_once('.').map(|(_, f)| f.to_string()).unwrap_or_else(|| rest.to_string()),
+                        None => k.clone(),
+                    })
+                    .collect();
+                let fields = if fields.is_empty() { "set of spaces".to_string() } else { fields.into_iter().collect::<Vec<_>>().join("+") };
+                let site = format!("{kind}/{who}: {fields}");
+                violation("redelivery-changes-state", &site, format!("P{p} ({who}) processed {} a second time and its stored state changed in: {}; queries afterwards: {view}", self.msg_label(mi), shorten(d.join("; "))));
             } else {
                 ev!("state changed on re-delivery of a message that was rejected the first time: {}", shorten(d.join("; ")));
             }
@@ -644,6 +692,28 @@ impl World {
         if counted && &after == before && events.is_empty() {
             ctx::probe("redelivery_was_noop");
         }
+    }
+}
+
+/// Code site of a panic without line numbers and machine-specific directories. simcore's hook
+/// reports "<file>:<line>" or, for a panic raised inside std / a dependency, "<file>:<line> in
+/// <innermost p2panda symbol>".
+fn panic_site(loc: &str) -> String {
+    let (fileline, sym) = match loc.split_once(" in ") {
+        Some((a, b)) => (a, Some(b.trim_end_matches(':').trim())),
+        None => (loc, None),
+    };
+    let file = fileline.rsplit_once(':').map(|(f, _)| f).unwrap_or(fileline);
+    let file = match file.split_once("/repo/") {
+        Some((_, rest)) => rest,
+        None => match file.split_once("registry/src/") {
+            Some((_, rest)) => rest.split_once('/').map(|(_, r)| r).unwrap_or(rest),
+            None => file,
+        },
+    };
+    match sym {
+        Some(s) if !s.is_empty() => format!("{file} in {s}"),
+        _ => file.to_string(),
     }
 }
 
@@ -843,7 +913,7 @@ impl World {
                 ev!("P{p} {desc} -> [{}]", labels.join(" "));
             }
             Ok(Local::Err(e)) => {
-                ev!("P{p} {desc} failed: {}", shorten(e));
+                ev!("P{p} {desc} failed: {}", shorten(self.scrub(e)));
                 ctx::probe("local_op_failed");
             }
             Err(payload) => {
@@ -1216,7 +1286,7 @@ async fn scenario(mode: u32) {
                 }
             }
             3 => {
-                let cands: Vec<(usize, usize)> = alive.iter().flat_map(|p| w.peers[*p].first_ok.keys().filter(|h| !w.peers[*p].redelivered.contains(h)).map(|h| (*p, w.by_hash[h])).collect::<Vec<_>>()).collect();
+                let cands: Vec<(usize, usize)> = alive.iter().flat_map(|p| w.peers[*p].first_ok.keys().filter(|h| !w.peers[*p].redelivered.contains(h)).map(|h| (*p, *h)).collect::<Vec<_>>()).collect();
                 if !cands.is_empty() {
                     let (p, mi) = *ctx::pick("duplicate", &cands);
                     w.redeliver(p, mi).await;
@@ -1251,7 +1321,7 @@ async fn scenario(mode: u32) {
 
     // Every processed message once more, at this later point (bounded).
     if mode >= 1 {
-        let mut cands: Vec<(usize, usize)> = (0..n).filter(|p| !w.peers[*p].dead).flat_map(|p| w.peers[p].first_ok.keys().filter(|h| !w.peers[p].redelivered.contains(h)).map(|h| (p, w.by_hash[h])).collect::<Vec<_>>()).collect();
+        let mut cands: Vec<(usize, usize)> = (0..n).filter(|p| !w.peers[*p].dead).flat_map(|p| w.peers[p].first_ok.keys().filter(|h| !w.peers[p].redelivered.contains(h)).map(|h| (p, *h)).collect::<Vec<_>>()).collect();
         ctx::shuffle("final.duplicates", &mut cands);
         for (p, mi) in cands.into_iter().take(32) {
             if !w.peers[p].dead {
@@ -1260,13 +1330,6 @@ async fn scenario(mode: u32) {
         }
     }
 
-    if let Ok(dir) = std::env::var("C39_DUMP") {
-        let mut t = String::new();
-        for (i, m) in w.msgs.iter().enumerate() {
-            t.push_str(&format!("m{i} {} {:?}\n", m.op.hash, m.op.header));
-        }
-        let _ = std::fs::write(format!("{dir}/{}.msgs", ctx::seed()), t);
-    }
     // Summary.
     let mut kinds: BTreeMap<&'static str, usize> = BTreeMap::new();
     for m in &w.msgs {
@@ -1297,8 +1360,8 @@ impl Property for C39Prop {
     }
     fn budget(&self, tier: Tier) -> Budget {
         match tier {
-            Tier::Quick => Budget { runs: 3_000, wall_cap_s: 38 },
-            Tier::Thorough => Budget { runs: 30_000, wall_cap_s: 340 },
+            Tier::Quick => Budget { runs: 2_700, wall_cap_s: 38 },
+            Tier::Thorough => Budget { runs: 27_000, wall_cap_s: 340 },
         }
     }
     fn modes(&self) -> u32 {
@@ -1335,6 +1398,11 @@ impl Property for C39Prop {
     }
 
     fn shrink_budget_s(&self, tier: Tier) -> u64 {
+        // Runs are slow (≈ 0.1–0.3 s), so the default budget is small; raise it with
+        // VERIF_SHRINK_S=<seconds> to get a shorter replay for a report.
+        if let Some(s) = std::env::var("VERIF_SHRINK_S").ok().and_then(|s| s.parse().ok()) {
+            return s;
+        }
         match tier {
             Tier::Quick => 6,
             Tier::Thorough => 30,
@@ -1344,9 +1412,5 @@ impl Property for C39Prop {
     fn run(&self) {
         let mode = ctx::mode();
         stepexec::block_on(scenario(mode));
-        if let Ok(dir) = std::env::var("C39_DUMP") {
-            let t = ctx::with(|c| c.trace.join("\n"));
-            let _ = std::fs::write(format!("{dir}/{}.txt", ctx::seed()), t);
-        }
     }
 }
